@@ -130,7 +130,10 @@ theorem insertNewLeaves_keep {f : Bool} {i : Nat} {x : Option Node} :
       · split at h
         · exact insertNewLeaves_keep h hrest hd (insertLeaf_keep (by omega) hx)
         · cases h
-          exact foldl_insertLeaf_keep _ _ (fun po hpo => hd po (List.mem_reverse.1 hpo)) hx
+          exact foldl_insertLeaf_keep _ _ (fun po hpo => by
+            rcases List.mem_append.1 hpo with hpo | hpo
+            · exact hd po (List.mem_reverse.1 hpo)
+            · exact hp po hpo) hx
 
 theorem applyUpdatesF_keep {f : Bool} {i : Nat} {x : Option Node} {us applied : List Proposal}
     {t t2 : Tree} (h : applyUpdatesF f us t = .ok (applied, t2)) (hu : ∀ u ∈ us, leafIdxOf u ≠ i)
